@@ -422,6 +422,7 @@ namespace
                         }
                         runtime.context_active().clear_values();
                         frame.clear_value_scope();
+                        frame.scope_name({}); // the next round is a new scope
                         return result::exchange;
                 }
                 return result::ok;
